@@ -62,6 +62,36 @@ Step ==
     [] e = "Factory" -> FactoryF(Ev.t, Ev.op, Ev.d, Ev.c, Ev.fail)
     [] OTHER -> FALSE
 
+\* Burst(d,n): n temporaries of dimension d alive at once, then all released (this is how the capacity of a cache class
+\* is reached).  The recorded heap events are applied in order as the micro steps of SUVec (Alloc = hit | new,
+\* Dealloc = cached (only while the class has room) | del); every block taken must have been given back.
+RECURSIVE BurstFold(_,_,_,_)
+BurstFold(st, evs, i, dd) ==
+  IF i > Len(evs) \/ ~st.ok THEN st ELSE
+  LET k == evs[i][1]  b == evs[i][2] IN
+  IF b \notin Blocks THEN [st EXCEPT !.ok = FALSE] ELSE
+  CASE k = "new" -> (IF st.blk[b].st = "free"
+                    THEN BurstFold([st EXCEPT !.blk[b] = [st |-> "tmp", dim |-> dd, raw |-> FALSE, val |-> <<>>]], evs, i+1, dd)
+                    ELSE [st EXCEPT !.ok = FALSE])
+    [] k = "hit" -> (IF b \in st.cache[dd]
+                    THEN BurstFold([st EXCEPT !.blk[b].st = "tmp", !.cache[dd] = @ \ {b}], evs, i+1, dd)
+                    ELSE [st EXCEPT !.ok = FALSE])
+    [] k = "cached" -> (IF st.blk[b].st = "tmp" /\ Cardinality(st.cache[dd]) < CacheCap
+                       THEN BurstFold([st EXCEPT !.blk[b].st = "cached", !.cache[dd] = @ \cup {b}], evs, i+1, dd)
+                       ELSE [st EXCEPT !.ok = FALSE])
+    [] k = "del" -> (IF st.blk[b].st = "tmp"
+                    THEN BurstFold([st EXCEPT !.blk[b] = FreeBlk], evs, i+1, dd)
+                    ELSE [st EXCEPT !.ok = FALSE])
+    [] OTHER -> [st EXCEPT !.ok = FALSE]
+TBurst == /\ Ev.e = "Burst" /\ Ev.out = "ok" /\ ValidDim(Ev.d) /\ Ev.scalar = 0
+          /\ LET r == BurstFold([ok |-> TRUE, blk |-> blk, cache |-> cache], Ev.hev, 1, Ev.d) IN
+             /\ r.ok
+             /\ \A b \in Blocks : r.blk[b].st # "tmp"                                  \* nothing is left allocated and unowned
+             /\ Cardinality({i \in 1..Len(Ev.hev) : Ev.hev[i][1] \in {"new","hit"}}) = Ev.c   \* one block per temporary
+             /\ blk' = r.blk /\ cache' = r.cache
+          /\ UNCHANGED <<vec, ebuf>> /\ outcome' = "ok" /\ hev' = {} /\ nops' = nops + 1
+          /\ lastAct' = [A("Burst") EXCEPT !.d = Ev.d, !.c = Ev.c]
+
 \* Reset: the driver has destroyed every vector and emptied the cache (both recorded as ordinary calls);
 \* the specification must be quiescent with every block given back, and the ledger must agree
 TReset == /\ Ev.e = "Reset"
@@ -73,7 +103,8 @@ TReset == /\ Ev.e = "Reset"
 
 TNext == /\ l <= Len(Log)
          /\ l' = l + 1
-         /\ \/ (Ev.e # "Reset" /\ Ev.e # "End" /\ Step /\ PostOK)
+         /\ \/ (Ev.e \notin {"Reset","End","Burst"} /\ Step /\ PostOK)
+            \/ TBurst
             \/ TReset
             \/ (Ev.e = "End" /\ UNCHANGED vars)
 
